@@ -706,6 +706,25 @@ public:
                 for (auto &e : g.e) e.w = rng.range(std::max<int64_t>(1, cap * 3 / 4), cap);
                 g.wexp = 0;
             }
+            else if (p == "C16" && rng.chance(40)) {
+                // wide-index family: n just above 2^8 or 2^16, a few cycles on small vertex numbers, and for each of their edges
+                // {a,b} with a odd the edge {a-1, 2^k+b}: pairs of edges that coincide under half-word packings of the two endpoints
+                int k = rng.chance(500) ? 8 : 16, r0 = (int) rng.range(12, 40), n = (1 << k) + r0;
+                gen::EL el; int nv = (int) rng.range(3, 9), tries = (int) rng.range(3, 12);
+                for (int i = 0; i + 1 < nv; i++) el.emplace_back(i, i + 1);
+                el.emplace_back(0, nv - 1);
+                for (int i = 0; i < tries; i++) { int a = (int) rng.below(nv), b = (int) rng.below(nv); if (a != b) el.emplace_back(std::min(a, b), std::max(a, b)); }
+                gen::dedup(el);
+                gen::EL base = el;
+                for (auto &e : base) { int a = std::min(e.first, e.second), b = std::max(e.first, e.second); if ((a & 1) && rng.chance(700)) el.emplace_back(a - 1, (1 << k) + b); }
+                if (rng.chance(500)) for (int i = nv; i + 1 < nv + 6; i++) el.emplace_back(i, i + 1);      // a separate tree component
+                gen::dedup(el);
+                g = gen::from_el(n, el); g.wtype = "double"; g.family = "wide_index";
+                for (auto &e : g.e) e.w = 1;
+                std::vector<size_t> perm(g.e.size()); for (size_t i = 0; i < perm.size(); i++) perm[i] = i;
+                for (size_t i = perm.size(); i > 1; i--) std::swap(perm[i - 1], perm[rng.below(i)]);
+                std::vector<gen::GEdge> sh; for (auto i : perm) sh.push_back(g.e[i]); g.e = sh;           // edge order shuffled, vertex numbers kept
+            }
             else if (p == "C12" && g.wtype == "double" && !g.inexact && rng.chance(200)) {
                 // magnitude family: the same numerators at 2^-70 .. 2^-55 (all differences far below machine epsilon in absolute
                 // terms) or 2^40; every sum stays exact, so distances and ties are exactly those of the unscaled graph
